@@ -648,6 +648,9 @@ func (E *Engine) doGo(st *State, x *ssa.Go) []*State {
 		st.log = append(st.log, CallEvent{Label: label, Args: args, Heap: copyHeap(st.heap)})
 		return nil
 	}
+	if spec.Log != "" {
+		label = spec.Log
+	}
 	// check the thread's precondition; nothing flows back except through shared state
 	var callee *ssa.Function
 	if f, ok := fnv.Fn.Fn.(*ssa.Function); ok {
@@ -663,7 +666,11 @@ func (E *Engine) doGo(st *State, x *ssa.Go) []*State {
 	if callee != nil {
 		for i, fv := range callee.FreeVars {
 			if i < len(fnv.Fn.Bindings) {
-				vars[fv.Name()] = fnv.Fn.Bindings[i]
+				nv := *fnv.Fn.Bindings[i]
+				if _, isPtr := types.Unalias(fv.Type()).Underlying().(*types.Pointer); isPtr {
+					nv.AutoDeref = true
+				}
+				vars[fv.Name()] = &nv
 			}
 		}
 	}
